@@ -43,7 +43,7 @@ CLAIMS = {
              'x kept fraction, evidence term = sum_j L_j V_b/N, Kish size per shell and overall, '
              'per-sample weights that sum to the evidence term and are normalised by their own '
              'sum.  Floating-point evaluation of the formulas and eta are not decided.',
-        ref='DESIGN.md sections 4 C02, 10.9-10.11, 10.14, 10.16, 10.17, rules L1 L1d T3 T8 Q3 A2 A6 L5 U1 A8 A9 P4 E I1 N3', note=TRUST),
+        ref='DESIGN.md sections 4 C02, 10.9-10.11, 10.14, 10.16, 10.17, 10.18, rules L1 L1d T3 T8 Q3 A2 A6 L5 U1 A8 A9 P4 E I1 N3 G6', note=TRUST),
     'C03': dict(
         technique='lockstep path analysis (same mask / index / source on parallel arrays), '
                   'ordered-map and batch-axis lints on the evaluation path, copy-provenance rule',
@@ -77,7 +77,7 @@ CLAIMS = {
              'checkpoint written inside an iteration of run() is followed by the end-of-exploration '
              'decision before the next batch (a run resumed from any file state does what the '
              'uninterrupted run did next).  Bit-identity itself is not decided.',
-        ref='DESIGN.md section 4 C05, 10, 10.13, 10.15 and 10.16, 10.17, rules P0 P1 P2 P4 P5 P6 P8 P9 P11 P12 P14 P15 K2 F3 F4 T10', note=TRUST +
+        ref='DESIGN.md section 4 C05, 10, 10.13, 10.15 and 10.16, 10.17, 10.18, rules P0 P1 P2 P4 P5 P6 P8 P9 P11 P12 P14 P15 K2 F3 F4 T10 P17', note=TRUST +
         ' h5py round-trips values exactly; sklearn training is deterministic given its seed.'),
     'C06': dict(
         technique='typestate analysis on per-function CFGs (atomic-replace protocol), path '
@@ -110,7 +110,7 @@ CLAIMS = {
              'constant; a range tuple is rejected unless it has two entries with low < high, and the '
              'array unit_to_physical fills is float64 whatever the dtype of the input.  The shape '
              'of scipy\'s quantile functions is not decided.',
-        ref='DESIGN.md section 4 C15, 10, 10.13-10.16, 10.17, rules T1 T1b T7 R1 L1p K1 A1 A1c F1p D1 D2 D3 D4',
+        ref='DESIGN.md section 4 C15, 10, 10.13-10.16, 10.17, 10.18, rules T1 T1b T7 R1 L1p K1 A1 A1c F1p D1 D2 D3 D4 D5 D7',
         note=TRUST),
 }
 
@@ -158,7 +158,7 @@ CLAIMS.update({
              'exactly the indices 0..N-1 (range bounds evaluated, probed while-loops start at 0, '
              'advance by one and continue while the key exists); a class chosen by comparing a '
              'stored tag with a string is the class of that name.',
-        ref='DESIGN.md sections 4 C09, 10.9-10.13, 10.15, 10.16, 10.17, rules P1-P5 P7 P7n P8-P13 G2 K2', note=TRUST +
+        ref='DESIGN.md sections 4 C09, 10.9-10.13, 10.15, 10.16, 10.17, 10.18, rules P1-P5 P7 P7n P8-P13 G2 K2 P17', note=TRUST +
         ' Exact array round-trip through HDF5 and the sklearn attribute sweep are trusted.'),
     'C10': dict(
         technique='who-may-call / who-may-write tables, CFG loop contract, def-use accounting',
@@ -172,7 +172,7 @@ CLAIMS.update({
              'and is the returned value; every evaluated point comes from a unit-cube restricted '
              'bound through row selections and a shift that is closed on [0,1); across resumes the '
              'budget is compared with a counter that every checkpoint update rewrites.',
-        ref='DESIGN.md sections 4 C10, 10.9-10.11, 10.14, 10.16, 10.17, rules F6 N1 T5 T8 T3 M1 M3 M6 P4 I1', note=TRUST),
+        ref='DESIGN.md sections 4 C10, 10.9-10.11, 10.14, 10.16, 10.17, 10.18, rules F6 N1 T5 T8 T3 M1 M3 M6 P4 I1 L1d', note=TRUST),
     'C11': dict(
         technique='effect (write/draw) summaries closed over the call graph; control-dependence '
                   'analysis of flag tests; rng provenance; nondeterminism lints with fixtures',
@@ -202,7 +202,7 @@ CLAIMS.update({
              'incremental update and comes back from a checkpoint as the bool its setter accepts.  '
              'Known finding K1 (listed in known_findings.json): the discard argument of run() is '
              'ignored once exploration has ended.',
-        ref='DESIGN.md sections 4 C12, 10.9-10.14, 10.16, 10.17 (known finding K1), rules T6 F6 L1 L3 T3 T4 A2 A6 P4 P9 P12 I1', note=TRUST),
+        ref='DESIGN.md sections 4 C12, 10.9-10.14, 10.16, 10.17 (known finding K1), 10.18, rules T6 F6 L1 L3 T3 T4 A2 A6 P4 P9 P12 I1 G6 T11', note=TRUST),
     'C13': dict(
         technique='lockstep path analysis of the parallel per-ellipsoid records, '
                   'validate-before-mutate and post-dominance (cache reset) on CFGs',
@@ -218,7 +218,7 @@ CLAIMS.update({
              'package writes into an array it was handed (so the recorded construction points '
              'stay what they were); a union read back from a checkpoint carries every member of the '
              'record.',
-        ref='DESIGN.md sections 4 C13, 10.9-10.13, 10.16, 10.17, rules L1 L1d L6 L0 T1 T9 S2 S3 S4 G5 F9 N3', note=TRUST),
+        ref='DESIGN.md sections 4 C13, 10.9-10.13, 10.16, 10.17, 10.18, rules L1 L1d L6 L0 T1 T9 S2 S3 S4 G5 F9 N3 S5', note=TRUST),
     'C14': dict(
         technique='lockstep rule on local view arrays; purity / parameter-guarded draw; '
                   'path-wise symbolic evaluation of the repeat counts',
@@ -230,7 +230,7 @@ CLAIMS.update({
              'and one double-precision uniform per row, a Bernoulli-only mask being admitted only '
              'under branch conditions that force boost < 1.  That NumPy floor/compare/repeat do '
              'what their names say is assumed.',
-        ref='DESIGN.md sections 4 C14, 10.9-10.11, 10.13, rules L5 F1 Q4 Q5 E(normalisation)', note=TRUST),
+        ref='DESIGN.md sections 4 C14, 10.9-10.11, 10.13, 10.18, rules L5 F1 Q4 Q5 E(normalisation)', note=TRUST),
     'C16': dict(
         technique='abstract interpretation: interval domain with open/closed ends and float-mod '
                   'transfer function; linear-form comparison of forward and inverse shift; '
@@ -245,7 +245,7 @@ CLAIMS.update({
              'x[0] - x[-1] + 1 both for distinct and for coincident coordinates (float modulo '
              'evaluated piecewise) and that the centre is x[argmax] + max/2 + 1/2 modulo 1 over '
              'that same vector.',
-        ref='DESIGN.md section 4 C16, 10.9 and 10.16, 10.17, rules M6 M7 M8', note=TRUST +
+        ref='DESIGN.md section 4 C16, 10.9 and 10.16, 10.17, 10.18, rules M6 M7 M8 P17', note=TRUST +
         ' float a % 1 is in [0,1) for a >= 0 and in [0,1] when a may be negative.'),
 })
 
